@@ -4,7 +4,7 @@ NATIVE = [("dbg", 1.0), ("rel", 1.0)]
 
 CHECKS = {
     "C01": dict(
-        claim='Held on N observed executions: every catalogue type expression x boundary-biased values is encoded and decoded by the real library (debug and release builds) and compared with the original at the Val level. Sampling of an unbounded space, not a proof; the evidence reports types, cases and distinct encodings.',
+        claim='Held on N observed executions: every catalogue type expression x boundary-biased values is encoded and decoded by the real library (debug and release builds) and compared with the original at the Val level. Sampling of an unbounded space, not a proof; the evidence reports types, cases and distinct encodings. Extra lanes run the types containing DateTime<Local> with TZ set to daylight-saving zones (POSIX rules), with wall-clock times next to transitions; values whose lengths need four / five varint bytes are included.',
         note="Trusted: the harness's Model impls (from_val / to_val) for the built-in types and Val equality; the value generator's reach is what bounds the claim.",
         technique='runtime round-trip monitor over a generated type catalogue, value-level oracle',
         level="exploration",
@@ -48,7 +48,7 @@ CHECKS = {
         assumptions=["legal histories only: chunk-0 field order never changes, a field is removed / made transient only while it is the last one serialized in its chunk, names are never reused"],
     ),
     "C04": dict(
-        claim='Held on N observed executions in both directions: library bytes == format (via strict reference decode + byte-identical re-encode), and reference encodings in every legal form choice decode to the value they denote.',
+        claim='Held on N observed executions in both directions: library bytes == format (via strict reference decode + byte-identical re-encode), and reference encodings in every legal form choice decode to the value they denote. Anchors: the Scala golden file (242 540 bytes) is decoded identically by library and reference, and the reference re-encodes it byte for byte once the writer\'s form choices are replayed.',
         note='Trusted: the reference model as transcription of the desert format (Appendix A of DESIGN.md); time/uuid/big-number layouts frozen as found.',
         technique='byte-exact differential monitor against an independent reference encoder/decoder',
         level="exploration",
@@ -103,7 +103,7 @@ CHECKS = {
         floors={"any": {"exact_consumption": 5000, "streams_read_back": 100, "big_values_ok": 50, "cross_version_exact_consumption": 1000}},
     ),
     "C08": dict(
-        claim='Fault enumeration over crash points: every strict prefix of every generated encoding (all cut points up to 4 KiB) is fed to the decoder; each must be rejected with Err.',
+        claim='Fault enumeration over crash points: every strict prefix of every generated encoding (all cut points up to 4 KiB) is fed to the decoder; each must be rejected with Err. Also: prefixes of reference encodings in the unknown-length sequence form, prefixes of other versions\' data under every version of the same history (stored version >= 1), and cut points of multi-megabyte values.',
         note='Covers same-definition reads; cross-version truncation is exercised by C03. Encodings come from the generators of C01/C02.',
         technique='exhaustive truncation-point enumeration with panic monitor',
         level="fault_enumeration",
@@ -115,7 +115,7 @@ CHECKS = {
         floors={"any": {"rejected": 100000, "rejected_unknown_length_form": 10000, "cross_version_rejected": 10000, "big_values_ok": 50}},
     ),
     "C09": dict(
-        claim="Held on N observed executions: flat streams of deduplicated / plain string writes (all patterns up to length 4, 5 in the thorough tier, over a 7-string alphabet; random longer ones) are written by the library and compared byte for byte with a reference string table (first occurrence = plain string, repeat = zig-zag varint of minus its id, ids from 1 in first-occurrence order), read back, and probed with ids that were never introduced; plus every subject type containing deduplicated strings (tuples, sequences, v0 and evolved records with and without names in the header).",
+        claim="Held on N observed executions: flat streams of deduplicated / plain string writes (all patterns up to length 4, 5 in the thorough tier, over a 7-string alphabet; random longer ones) are written by the library and compared byte for byte with a reference string table (first occurrence = plain string, repeat = zig-zag varint of minus its id, ids from 1 in first-occurrence order), read back, and probed with ids that were never introduced; plus every subject type containing deduplicated strings (tuples, sequences, v0 and evolved records with and without names in the header). One stream with 70 000 distinct ids (140 000 in the thorough tier) exercises two- and three-byte back-references.",
         note="Trusted: the reference string table (20 lines, harness/dv/src/streams.rs) and the reference encoder's stream-order numbering of header names. Cross-definition deduplication is outside the property (DESIGN 9-2).",
         technique="byte-exact reference string table monitor over exhaustive short write patterns",
         level="exploration",
@@ -124,7 +124,7 @@ CHECKS = {
         floors={"any": {"back_references_checked": 10000, "no_repeat_streams_identical_to_plain": 1000, "unknown_ids_rejected": 10000, "records_with_names_in_header_ok": 500, "streams:many_ids": 2}},
     ),
     "C10": dict(
-        claim="Held on N observed executions: every rooted graph with at most 3 nodes (4 in the thorough tier) and out-degree at most 2, and random graphs up to 200 nodes, is encoded with a harness-owned codec that offers node addresses as identities through the public API; bytes must equal the graph model (new marker + body on first offer, 1-based first-encounter number afterwards, pre-order), the decoded graph must be isomorphic with identical sharing (pointer equality), and streams citing an object number never introduced must fail with InvalidRefId. The Miri lane runs the same on small graphs under an interpreter that makes vtable addresses non-unique.",
+        claim="Held on N observed executions: every rooted graph with at most 3 nodes (4 in the thorough tier) and out-degree at most 2, and random graphs up to 200 nodes, is encoded with a harness-owned codec that offers node addresses as identities through the public API; bytes must equal the graph model (new marker + body on first offer, 1-based first-encounter number afterwards, pre-order), the decoded graph must be isomorphic with identical sharing (pointer equality), and streams citing an object number never introduced must fail with InvalidRefId. The Miri lane runs the same on small graphs under an interpreter that makes vtable addresses non-unique. The same codec is also exercised as a field of version-0 and evolved records (two graph fields, the second citing the first), and on wide graphs with 16 500 objects.",
         note="Trusted: the harness codec (graph.rs, safe Rust, public API only) and the DFS graph model. Native lanes cannot expose identity-by-fat-pointer; only the Miri lane can.",
         technique="graph-model monitor (byte-exact + isomorphism + pointer equality) over exhaustive small graphs; Miri lane",
         level="exploration",
@@ -134,7 +134,7 @@ CHECKS = {
         floors={"any": {"graphs_rebuilt_isomorphic": 500, "unknown_object_numbers_rejected": 500, "embedded_graph_rebuilt": 500, "embedded_graph_bytes_ok": 500}},
     ),
     "C11": dict(
-        claim="Thorough tier: exhaustive — all 2^32 bit patterns, each as u32 and as i32, are written to Vec<u8>, BytesMut and SizeCalculator, compared with the reference LEB128 / zig-zag formula, checked for minimal length and continuation bits, and read back through SliceInput, OwnedInput and DeserializationContext (release build, 16 shards). Quick tier: every value within 4096 of each width boundary plus a 2^20-point random sample, debug and release.",
+        claim="Thorough tier: exhaustive — all 2^32 bit patterns, each as u32 and as i32, are written to Vec<u8>, BytesMut and SizeCalculator, compared with the reference LEB128 / zig-zag formula, checked for minimal length and continuation bits, and read back through SliceInput, OwnedInput and DeserializationContext (release build, 16 shards). Quick tier: every value within 4096 of each width boundary plus a 2^20-point random sample, debug and release. Every value is additionally written and read as chunk-0 / chunk-1 / chunk-2 field of an evolved record (chunk buffers on the way out, input regions with non-zero start on the way back).",
         note="Trusted: refmodel::enc::vu_bytes / zigzag (10 lines).",
         technique="exhaustive enumeration of the 32-bit value space against a reference formula",
         level="exploration",
@@ -154,7 +154,7 @@ CHECKS = {
         floors={"any": {"cells_ok": 20000, "pair:reference_unknown_length->Vec": 100, "pair:unsized_iterator->array": 20, "pair:HashSet->Vec": 100, "pair:Vec->HashSet": 100, "pair:pair_list->HashMap": 100, "pair:[u8;N]->Bytes": 50}},
     ),
     "C13": dict(
-        claim="Held on N observed executions: for every generated enum the leading bytes are version 0 + the variant's position in index order (declaration order, or name order under sorted_constructors); indices the definition does not know give InvalidConstructorId, indices of transient constructors give DeserializingTransientConstructor with the right names; for every generated family (base enum + extensions whose new variants come after the old ones in index order, incl. sorted ones declared at random positions) old data keeps its meaning under the extension and new constructors are rejected by the old definition.",
+        claim="Held on N observed executions: for every generated enum the leading bytes are version 0 + the variant's position in index order (declaration order, or name order under sorted_constructors); indices the definition does not know give InvalidConstructorId, indices of transient constructors give DeserializingTransientConstructor with the right names; for every generated family (base enum + extensions whose new variants come after the old ones in index order, incl. sorted ones declared at random positions) old data keeps its meaning under the extension and new constructors are rejected by the old definition. Two enums with 140 constructors (declaration order and sorted) exercise two-byte constructor indices.",
         note="Trusted: EnumSchema::wire_index (stable sort by name) and the family generator.",
         technique="cross-definition differential execution over generated enum families + spliced constructor indices",
         level="exploration",
@@ -181,7 +181,7 @@ CHECKS = {
         floors={"any": {"all_sinks_agree_and_size_exact": 10000, "input_sequences_agree": 10000, "big_values_ok": 50}},
     ),
     "C16": dict(
-        claim="Fault enumeration on compressed frames: contents (zero, random, periodic, text, mixed) x sizes 0 .. 1 MiB (16 MiB thorough) x levels 0-9 x both sinks x all three sources with trailing data: frame == varint(len d) ++ varint(len z) ++ z with z inflating to d (checked with an independent inflate), following bytes intact; every truncation of frames <= 4 KiB is an error; every single-bit flip of small frames, random flips of large ones and header rewrites give Ok or Err, no panic, and no single allocation request above max(64 KiB, 2 x bytes actually produced) (allocation monitor).",
+        claim="Fault enumeration on compressed frames: contents (zero, random, periodic, text, mixed) x sizes 0 .. 1 MiB (16 MiB thorough) x levels 0-9 x both sinks x all three sources with trailing data: frame == varint(len d) ++ varint(len z) ++ z with z inflating to d (checked with an independent inflate), following bytes intact; every truncation of frames <= 4 KiB is an error; every single-bit flip of small frames, random flips of large ones and header rewrites give Ok or Err, no panic, and no single allocation request above max(64 KiB, 2 x bytes actually produced) (allocation monitor). Frames are also written by a user codec through SerializationContext (straight to the sink, into a chunk buffer, through a size-calculating context) and read back from inside input regions; every bit of the first four bytes of each deflate stream is flipped.",
         note="Trusted: flate2's DeflateDecoder as independent inflate (same crate the library uses, called directly); the counting allocator.",
         technique="round-trip + framing monitor with allocation monitor over truncation / bit-flip / header-rewrite faults",
         level="fault_enumeration",
